@@ -503,6 +503,8 @@ def run(ctx, prop):
                 for sch in enum_schedules(acts, 5 if len(acts) == 3 else 4):
                     ops.append(op(acts, ["a"], sch))
         ops = list(dict.fromkeys(ops))
+    explore = [l for l in ops if l.startswith("explore ")]
+    ops = [l for l in ops if l.startswith("sched ")]
     fast = [l for l in ops if not is_slow(l)]
     slow = [l for l in ops if is_slow(l)]
     ctx.log(f"running {len(fast)} fast and {len(slow)} real-time schedules")
@@ -525,6 +527,24 @@ def run(ctx, prop):
     by_op = {c.op: (mres[i] if i < len(mres) else "<missing>") for i, c in enumerate(modelled)}
     model = [by_op.get(c.op, "accept jl= (connect scenario: outside the model)") for c in good]
     ctx.log("lean trace validation done")
+    # bounded exploration of the model itself (supporting evidence, not a proof): every interleaving of the
+    # listed operation sets; without timeouts no C04 / C05 violation, no broken invariant, no panic, no deadlock
+    if explore:
+        eres = ctx.lean_run(explore, timeout=3000) or []
+        for l, r in zip(explore, eres):
+            mm = re.match(r"states=(\d+) settled=(\d+) deadlocks=(\d+)(.*)", r)
+            if not mm:
+                ctx.notes.append("explorer: unparsable answer " + r[:100])
+                continue
+            ctx.count("explorer-states", int(mm.group(1)))
+            ctx.count("explorer-settled-states", int(mm.group(2)))
+            bad = [w.split("=")[0] for w in re.findall(r"(\w+=\[)", mm.group(4))]
+            bad = [b.rstrip("=[") for b in bad]
+            unexpected = [b for b in bad if b not in ("c07", "c07count")]
+            if "tmo=0" in l and unexpected:
+                ctx.violation("proof", f"the model itself violates {unexpected} without timeouts: {l}",
+                              signature={"kind": "explorer", "bad": ",".join(unexpected)},
+                              replay={"ops": [l], "model": [r[:2000]]}, no_input=True)
     for i, c in enumerate(good):
         m = model[i] if i < len(model) else ""
         if m.startswith("accept") and not c.spec.get("connect"):
